@@ -31,7 +31,7 @@ def seed_table():
         for l in open(p):
             parts = l.rstrip("\n").split("\t")
             if len(parts) >= 4: res[parts[0]] = (parts[2], parts[3])
-    for d in sorted(glob.glob(os.path.join(V, "seeded", "C??-?"))):
+    for d in sorted(glob.glob(os.path.join(V, "seeded", "C??-[0-9]*")), key=lambda x: (os.path.basename(x)[:3], int(os.path.basename(x)[4:]))):
         name = os.path.basename(d)
         try: m = json.load(open(os.path.join(d, "meta.json")))
         except Exception: m = {}
